@@ -293,6 +293,12 @@ int main(int argc, char** argv) {
                 { CdnsExporter ea(fa, MemSink{&oa}, CborOutputCompression::NO_COMPRESSION); b.add_question_response_record(PA.qr[2]); b.add_question_response_record(PA.qr[0]); b.add_malformed_message(PA.mm[0]); ea.write_block(b); }
                 b.clear(); bool ok = b.set_block_parameters(bpB, 0); if (!ok) out.push_back({"block-reuse|set-parameters-refused", "set_block_parameters on a cleared block returned false"});
                 { CdnsExporter eb(fb, MemSink{&ob}, CborOutputCompression::NO_COMPRESSION); for (int q : {1, 2, 0, 4}) { b.add_question_response_record(PB.qr[q]); MB.buffer_qr(PB.qr[q], nullptr); } b.add_malformed_message(PB.mm[0]); MB.buffer_mm(PB.mm[0], nullptr); b.add_malformed_message(PB.mm[3]); MB.buffer_mm(PB.mm[3], nullptr); eb.write_block(b); MB.write_block(); }
+                // a copy of that block, and a copy assigned onto a block that served rate A, written to further files: the same content, the same times
+                std::vector<std::string> oc, od;
+                { CdnsExporter ec(fb, MemSink{&oc}, CborOutputCompression::NO_COMPRESSION); CdnsBlock c(b); ec.write_block(c); }
+                { CdnsExporter ed(fb, MemSink{&od}, CborOutputCompression::NO_COMPRESSION); CdnsBlock d(bpA, 0); d.add_question_response_record(PA.qr[2]); d = b; ed.write_block(d); }
+                if (oc.at(0) != ob.at(0)) out.push_back({"block-reuse|copy-written", "a copy of the block (rate " + std::to_string(r2) + ") serialises differently from the block itself"});
+                if (od.at(0) != ob.at(0)) out.push_back({"block-reuse|assigned-copy-written", "the block (rate " + std::to_string(r2) + ") assigned onto a block that served rate " + std::to_string(r1) + " serialises differently from the block itself"});
                 std::string expect = "P{" + MB.outs[0].preamble + "}"; for (auto& bl : MB.outs[0].blocks) expect += "|B{" + bl.dump() + "}"; expect += "|eof";
                 std::string rd; try { rd = lib::file_dump(ref::read_file(ob.at(0))); } catch (std::exception& e) { rd = std::string("INVALID: ") + e.what(); } std::string ld = lib::file_dump(lib::read_bytes(ob.at(0)));
                 if (rd != expect) out.push_back({"block-reuse|independent-reader", "block object re-used under rate " + std::to_string(r2) + " after rate " + std::to_string(r1) + ": file differs from what was added: " + rd.substr(0, 60)});
